@@ -1,6 +1,8 @@
 import Mimium.Proofs.LexerTiling
 import Mimium.Proofs.PreparseNeighbour
 import Mimium.Proofs.CstBuilder
+import Mimium.Proofs.CstGrammar
+import Mimium.Proofs.CstGrammarTerm
 /-!
 # C13 — tokens and syntax tree are lossless over the source text
 
@@ -22,10 +24,17 @@ model) and every token table `T` with the decidable side condition `TablesOk` (r
   (`C13_cst_leaves_are_bumped_tokens`); with `Parser::parse`'s loop and any bracket-neutral `parse_statement`, all of
   `token_indices` (`C13_cst_has_every_syntax_token_once`, `C13_pipeline_cst_lossless`).
 
-NOT proved here (tied by the correspondence run and by `tools/extract.py`'s shape checks): that the Rust functions compute what
-the models compute; that the grammar functions of `cst_parser.rs` only use the primitives in a bracket-neutral way (checked
-textually: only `bump` calls `add_token`/moves `current`; `start_node*`/`finish_node` counts agree per function) — the real
-tree's leaves are compared with `token_indices` on every case.  `red.rs` (offsets without trivia) is not modelled.
+* for the REAL grammar — `Model/CstGrammar.lean`, a literal port of every grammar function of `cst_parser.rs` (73 bodies: 51
+  functions + 22 loops, `body : Tag → Cmd`) — and every token list: each grammar function, run from any state, leaves the number of
+  open nodes unchanged, keeps "leaves under construction = `token_indices[0..cursor)`" and never moves the cursor back
+  (`C13_grammar_is_bracketed`); the tree the ported `parse` returns has as leaves ALL syntax tokens, each once, in source order
+  (`C13_real_grammar_cst_lossless`, `C13_real_pipeline_cst_lossless` from the text on) — no "any bracket-neutral grammar"
+  hypothesis left.  `C13_grammar_functions_pinned`: the bodies the port was made from are the bodies in `/repo` now (hash of every
+  function of `cst_parser.rs`, `SyntaxKind`, `MAX_LOOKAHEAD`, re-extracted on every run).
+
+NOT proved here (tied by the correspondence run and by `tools/extract.py`): that the Rust functions compute what the models
+compute — the green tree (node kinds, raw token indices), the error list (index + message) and the relabelled token kinds of the
+real `parse_cst` are compared EXACTLY with the port on every case of every stream.  `red.rs` (offsets without trivia) is not modelled.
 -/
 namespace Mimium.Props.C13
 open Mimium.Gen (Kind)
@@ -224,6 +233,67 @@ theorem C13_pipeline_cst_lossless (C : Classes) (T : Tables) (s : List Char) (st
     ∃ g, (parse ⟨(tokenize C T s).map Token.len, (preparse ((tokenize C T s).map Token.kind)).tokenIndices⟩ stmt).root = some g ∧
       g.leaves = syntaxIndices 0 ((tokenize C T s).map Token.kind) :=
   C13_cst_has_every_syntax_token_once _ _ (by simp) stmt hn
+
+/-! ## The real grammar (`Model/CstGrammar.lean`) -/
+
+open Mimium.Grammar in
+/-- The port is a port of what is in `/repo` now: every function of `cst_parser.rs` has the body hash of the reviewed list
+`tools/cst_grammar.json`, and `SyntaxKind` / `MAX_LOOKAHEAD` are unchanged.  ANY edit of a grammar function breaks this `decide`. -/
+theorem C13_grammar_functions_pinned :
+    Mimium.Gen.grammarFns = Mimium.Gen.grammarFnsPinned ∧ Mimium.Gen.syntaxKindsNow = Mimium.Gen.syntaxKindsPinned ∧
+    Mimium.Gen.maxLookahead = Mimium.Gen.maxLookaheadPinned := by decide
+
+open Mimium.Grammar in
+/-- EVERY grammar function / loop of the port (`t : Tag`), with any fuel, from any parser state with at least one open node in
+which the leaves under construction are the tokens bumped so far: the same number of nodes is open afterwards (every `start_node*`
+has its `finish_node`, the enclosing node is never closed), the leaves under construction are again exactly
+`token_indices[0 .. cursor)` — so the nodes it added have the leaves `token_indices[cursor_before .. cursor_after)` in order —, and
+the cursor did not move back.  (`Env.Ok`: `token_indices` points inside the token array; true for `preparse`.) -/
+theorem C13_grammar_is_bracketed (E : Grammar.Env) (hE : Grammar.Env.Ok E) (fuel : Nat) (t : Grammar.Tag) (s : Grammar.St)
+    (h1 : 1 ≤ s.b.stack.length) (hinv : Cst.Inv E.cst s.b) :
+    (go E fuel t s).b.stack.length = s.b.stack.length ∧ Cst.Inv E.cst (go E fuel t s).b ∧
+    s.b.current ≤ (go E fuel t s).b.current :=
+  let st := go_good hE fuel t s h1 hinv
+  ⟨st.depth, st.inv, st.mono⟩
+
+open Mimium.Grammar in
+/-- LOSSLESS, real grammar: for EVERY token list (kinds `ks`, lengths `widths`) the tree returned by the ported `Parser::parse`
+(any fuel ≥ `fuelBound (#syntax tokens)`, see `C04_parser_terminates`) has as token leaves exactly the syntax tokens of the list
+— neither trivia nor `Eof` —, each once, in source order; and no node is left open. -/
+theorem C13_real_grammar_cst_lossless (ks : List Kind) (widths : List Nat) (hw : widths.length = ks.length) (fuel : Nat)
+    (hf : fuelBound (preparse ks).tokenIndices.length ≤ fuel) :
+    ∃ g, (parse (mkEnv ks widths (preparse ks)) fuel ks.toArray).b.root = some g ∧
+      (parse (mkEnv ks widths (preparse ks)) fuel ks.toArray).b.stack = [] ∧
+      g.leaves = syntaxIndices 0 ks := by
+  have hlen : len (mkEnv ks widths (preparse ks)) = (preparse ks).tokenIndices.length := by simp [len, mkEnv]
+  have ⟨_, hoof⟩ := parse_fuel (mkEnv ks widths (preparse ks)) ks.toArray fuel (by rw [hlen]; exact hf)
+  obtain ⟨g, h1, h2, _, h4, _⟩ := parse_tokens_spec ks widths hw fuel
+  exact ⟨g, h1, h2, h4 hoof⟩
+
+open Mimium.Grammar in
+/-- End to end with the real grammar: for every text, `tokenize` → `preparse` → ported `parse` yields a tree whose token leaves
+are exactly the non-trivia, non-`Eof` tokens of the text, each once, in source order. -/
+theorem C13_real_pipeline_cst_lossless (C : Classes) (T : Tables) (s : List Char) :
+    ∃ g, (parseTokens ((tokenize C T s).map Token.kind) ((tokenize C T s).map Token.len)).b.root = some g ∧
+      g.leaves = syntaxIndices 0 ((tokenize C T s).map Token.kind) := by
+  obtain ⟨g, h1, _, h3⟩ := C13_real_grammar_cst_lossless ((tokenize C T s).map Token.kind) ((tokenize C T s).map Token.len)
+    (by simp) _ (Nat.le_refl _)
+  exact ⟨g, h1, h3⟩
+
+/-- non-vacuity, real grammar: `fn f(x){ x+1 }` (token kinds of the real tokenizer) — all ten syntax tokens are leaves, in
+order, the run is complete and reports no error -/
+example :
+    let ks : List Kind := [.Function, .Whitespace, .Ident, .ParenBegin, .Ident, .ParenEnd, .BlockBegin, .Whitespace, .Ident, .OpSum,
+      .Int, .Whitespace, .BlockEnd, .Eof]
+    let r := Grammar.parseTokens ks [2, 1, 1, 1, 1, 1, 1, 1, 1, 1, 1, 1, 1, 0]
+    (r.b.root.map Green.leaves = some [0, 2, 3, 4, 5, 6, 8, 9, 10, 12]) ∧ r.oof = false ∧ r.errs = [] ∧
+      r.kinds[2]? = some .IdentFunction ∧ r.kinds[4]? = some .IdentParameter := by decide +kernel
+
+/-- non-vacuity on a text with syntax errors, `let ( = ) )`: error recovery skips tokens, yet every syntax token is a leaf -/
+example :
+    let ks : List Kind := [.Let, .ParenBegin, .Assign, .ParenEnd, .ParenEnd]
+    let r := Grammar.parseTokens ks [3, 1, 1, 1, 1]
+    (r.b.root.map Green.leaves = some [0, 1, 2, 3, 4]) ∧ r.oof = false ∧ r.errs.length = 4 := by decide +kernel
 
 /-- non-vacuity of the builder theorem: a Pratt-style `start_node_at` wrap keeps the leaves in order -/
 example : ((exec ⟨[1, 1, 1], [0, 1, 2]⟩ (run ⟨[1, 1, 1], [0, 1, 2]⟩ ⟨[⟨0, []⟩], 0, none⟩
